@@ -344,19 +344,43 @@ impl BigRat {
 		Ok(self.apply_uint_op(BigUint::factorial, int)?.into())
 	}
 
+	/// Rounds to an integer using exact integer arithmetic. If a fractional part
+	/// is discarded, `away_from_zero` decides from the sign and from how that
+	/// fraction compares with one half whether the magnitude is rounded up.
+	fn round_with<I: Interrupt>(
+		self,
+		away_from_zero: impl FnOnce(Sign, cmp::Ordering) -> bool,
+		int: &I,
+	) -> FResult<Self> {
+		let (quotient, remainder) = self.num.divmod(&self.den, int)?;
+		let num = if remainder == 0.into() {
+			quotient
+		} else {
+			let half = remainder.mul(&2.into(), int)?.cmp(&self.den);
+			if away_from_zero(self.sign, half) {
+				quotient.add(&1.into())
+			} else {
+				quotient
+			}
+		};
+		Ok(Self {
+			sign: self.sign,
+			num,
+			den: 1.into(),
+		})
+	}
+
 	pub(crate) fn floor<I: Interrupt>(self, int: &I) -> FResult<Self> {
-		let float = self.into_f64(int)?.floor();
-		Self::from_f64(float, int)
+		self.round_with(|sign, _| sign == Sign::Negative, int)
 	}
 
 	pub(crate) fn ceil<I: Interrupt>(self, int: &I) -> FResult<Self> {
-		let float = self.into_f64(int)?.ceil();
-		Self::from_f64(float, int)
+		self.round_with(|sign, _| sign == Sign::Positive, int)
 	}
 
+	// halfway cases are rounded away from zero
 	pub(crate) fn round<I: Interrupt>(self, int: &I) -> FResult<Self> {
-		let float = self.into_f64(int)?.round();
-		Self::from_f64(float, int)
+		self.round_with(|_, half| half != cmp::Ordering::Less, int)
 	}
 
 	pub(crate) fn bitwise<I: Interrupt>(
